@@ -13,6 +13,7 @@ SEARCH = 6000            # search limit of the implementation runs (finite, so n
 UD_CALLS = 600_000       # > the calls of two lazy consumptions within the oracle's budget
 ORACLE_BUDGET = 3000     # pulls of any one source the oracle is willing to do
 FUEL = 400000            # steps of the model
+PRODUCT_IN_MODEL = False  # the model driver has no `product` token yet: the family is decided by the oracle
 WATCHDOG = 60.0          # seconds before a single request counts as a hang (generous: the machine may be loaded)
 
 
@@ -333,6 +334,23 @@ def o_chunks(g, n):
     return counted(it)
 
 
+def o_product(gs):
+    """cartesian product, last part fastest (itertools.product); every part is a generator VALUE and is started
+    over for every combination of the parts before it; empty as soon as one part is empty"""
+    def it(ctx):
+        for g in gs[1:]:
+            if next(iter(g(ctx)), None) is None:
+                return
+        def rec(i, prefix):
+            if i == len(gs):
+                yield tuple(prefix)
+                return
+            for x in gs[i](ctx):
+                yield from rec(i + 1, prefix + [x])
+        yield from rec(0, [])
+    return counted(it)
+
+
 def consume(kind, arg, g):
     """value of the consumer over the list semantics; ERR where xray gives an error value"""
     ctx = Ctx()
@@ -634,6 +652,107 @@ def gen_case(rng, max_ops):
     return p, cons, arg, call
 
 
+def tupty(k):
+    return "(" + ", ".join(["int"] * k) + ")"
+
+
+def build_product(parts, post):
+    """parts: list of (Pipe, as_sequence_literal); post: list of functions Pipe -> Pipe"""
+    k = len(parts)
+    first = parts[0][0]
+    args = ", ".join((q.seqsrc if (lit_ and k >= 3) else q.src) for q, lit_ in parts[1:])
+    ops = [o for q, _ in parts for o in q.ops] + ["product"]
+    toks = [t for q, _ in parts for t in q.toks] + [f"product:{k}"]
+    p = Pipe(f"{first.src}.product({args})", toks, o_product([q.orc for q, _ in parts]), ty=tupty(k),
+             inf=first.inf, ops=ops)
+    p.nomodel = any(getattr(q, "nomodel", False) for q, _ in parts)
+    for f in post:
+        p = f(p)
+    p.nomodel = True if post else p.nomodel
+    if not PRODUCT_IN_MODEL:
+        p.nomodel = True
+    p.product_spec = (parts, post)
+    return p
+
+
+def product_variants(p):
+    """smaller products: one part or one trailing operation less"""
+    parts, post = p.product_spec
+    out = []
+    for i in range(len(post) - 1, -1, -1):
+        out.append((parts, post[:i] + post[i + 1:]))
+    if len(parts) > 2:
+        for i in range(len(parts) - 1, 0, -1):
+            out.append((parts[:i] + parts[i + 1:], post))
+    res = []
+    for ps, po in out:
+        try:
+            q = build_product(ps, po)
+        except Exception:
+            continue
+        if not q.inf:
+            res.append(q)
+    return res
+
+
+def gen_product_case(rng):
+    """the family `product`: 2-5 parts of 0-4 elements (a one-element or empty part now and then, an infinite
+    first part under a final take), optionally mapped back to ints and piped on"""
+    k = rng.choice([2, 3, 3, 3, 4, 4, 5])
+    parts = []
+    for i in range(k):
+        n = rng.choice([0, 1, 1, 2, 2, 3, 4]) if rng.random() < 0.9 else 0
+        base = rng.choice([0, 10, 100, 1000])
+        xs = [base + j for j in range(n)]
+        if i == 0 and rng.random() < 0.15:
+            q = Pipe("count().to_generator()", ["count"], o_count(), inf=True, ops=["count"])
+        else:
+            txt = "[" + ", ".join(lit(x) for x in xs) + "]" if xs else "[].map((x:int)->{x})"
+            q = Pipe(txt + ".to_generator()", ["arr:" + ",".join(map(str, xs))], o_arr(xs), ops=["arr"])
+            q.seqsrc = txt
+            if rng.random() < 0.3:
+                q2 = extend(rng, q, False, 0)
+                if q2.ty == INT and not q2.inf:
+                    q = q2
+        # (a plain Sequence argument only with three or more parts: `g.product(seq)` is ambiguous with the
+        # multiplicative `product(Generator<T>, U)`)
+        parts.append((q, k >= 3 and i > 0 and hasattr(q, "seqsrc") and q.src == q.seqsrc + ".to_generator()" and rng.random() < 0.4))
+    post = []
+    if rng.random() < 0.35:
+        ty = tupty(k)
+        body = " + ".join(f"x::item{j}" for j in range(k))
+        post.append(lambda p, ty=ty, body=body: p.then("map", f"{p.src}.map((x:{ty})->{{{body}}})", "map:sum",
+                                                         o_map(p.orc, strict(pysum)), ty=INT))
+        if rng.random() < 0.5:
+            st = rng.getstate()
+
+            def more(p, st=st):
+                r = _random.Random()
+                r.setstate(st)
+                return extend(r, p, False, 0)
+            post.append(more)
+            extend(rng, Pipe("[1].to_generator()", ["arr:1"], o_arr([1])), False, 0)   # advance the PRNG alike
+    elif rng.random() < 0.3:
+        n = rng.choice([0, 1, 2, 5])
+        post.append(lambda p, n=n: p.then("skip", f"{p.src}.skip({n})", f"skip:{n}", o_slice(p.orc, n, None)))
+    p = build_product(parts, post)
+    if p.inf:
+        n = rng.choice([1, 3, 5, 8, 13, 30])
+        post = post + [lambda p, n=n: final_take(p, n)]
+        p = build_product(parts, post)
+    kk = rng.random()
+    if kk < 0.75:
+        cons, arg, call = "toarray", None, "to_array()"
+    elif kk < 0.85:
+        cons, arg, call = "len", None, "len()"
+    elif kk < 0.92:
+        cons, arg, call = "last", None, "last()"
+    else:
+        arg = rng.choice([0, 1, 3, 6, 11])
+        cons, call = "get", f"get({lit(arg)})"
+    return p, cons, arg, call
+
+
 def cons_name(cons, arg):
     """the consumer as the model driver spells it"""
     if arg is None:
@@ -649,7 +768,8 @@ def run_cases(cases):
     for p, cons, arg, call in cases:
         src = f"let g = {p.src};\nlet a = g.{call};\nlet b = g.{call};\n"
         reqs.append({"op": "run", "src": src, "get": ["a", "b"], "limits": {"search": SEARCH, "ud_calls": UD_CALLS}})
-        mlines.append(f"gen {cons_name(cons, arg)} {SEARCH} {FUEL} " + " ".join(p.toks))
+        mlines.append("ping" if getattr(p, "nomodel", False) else
+                      f"gen {cons_name(cons, arg)} {SEARCH} {FUEL} " + " ".join(p.toks))
     impl = run_harness(reqs, per_req_timeout=WATCHDOG)
     model = run_model(mlines)
     out = []
@@ -666,7 +786,7 @@ def run_cases(cases):
             want, ocalls = dump(v), (ctx.calls, ctx.starts)
         except Diverge:
             want, ocalls = None, None
-        out.append((a, b, calls, parse_model(m), want, ocalls))
+        out.append((a, b, calls, None if getattr(p, "nomodel", False) else parse_model(m), want, ocalls))
     return out
 
 
@@ -697,13 +817,13 @@ def verdict(case, res):
         # the oracle gave up (more than ORACLE_BUDGET pulls): only the limit may end such a pipeline
         if a == "HANG" or a == "PANIC":
             return ("hang" if a == "HANG" else "panic", f"{a} on a pipeline whose evaluation needs more than {ORACLE_BUDGET} pulls")
-        if model not in ("FUEL",) and model != a:
+        if model is not None and model not in ("FUEL",) and model != a:
             return ("tie", f"model {model} / implementation {a} (no oracle verdict: needs more than {ORACLE_BUDGET} pulls)")
         return None
     if a != want:
         kind = {"HANG": "hang", "PANIC": "panic", "VIOL": "viol"}.get(a, "wrong")
         return (kind, f"implementation gives {a}; the pipeline over plain lists gives {want}")
-    if model != a:
+    if model is not None and model != a:
         return ("tie", f"model gives {model}, implementation (which agrees with the list semantics) gives {a}")
     if calls is not None and ocalls is not None:
         need, starts = ocalls
@@ -718,6 +838,20 @@ def shrink(case, kind, evaluate):
     """greedy delta debugging over the operations: drop one operation at a time while the same kind of
     failure remains; `evaluate(case)` -> (kind or None, result).  Returns the smallest failing case found."""
     p = case[0]
+    if hasattr(p, "product_spec"):
+        budget = 40
+        improved = True
+        while improved and budget > 0:
+            improved = False
+            for q in product_variants(case[0]):
+                c2 = (q,) + tuple(case[1:])
+                budget -= 1
+                if evaluate(c2) == kind:
+                    case, improved = c2, True
+                    break
+                if budget <= 0:
+                    break
+        return case
     recipe, errmode = getattr(p, "recipe", None), getattr(p, "errmode", False)
     if not recipe:
         return case
@@ -759,7 +893,8 @@ def run(chk):
     n = 1000 if quick else 6000
     # fixed regression cases first: the defects repaired by `fix:` commits (their witnesses)
     fixed = corpus_cases()
-    cases = fixed + [gen_case(rng, max_ops) for _ in range(n)]
+    nprod = 300 if quick else 2500
+    cases = fixed + [gen_case(rng, max_ops) for _ in range(n)] + [gen_product_case(rng) for _ in range(nprod)]
     results = run_cases(cases)
     for i, (case, res) in enumerate(zip(cases, results)):
         p, cons, arg, call = case
@@ -792,8 +927,9 @@ def run(chk):
         sig = "+".join(sorted(set(p.ops)))
         src = f"let g = {p.src}; let a = g.{call}; let b = g.{call};"
         replay = {"src": src, "get": ["a", "b"], "limits": {"search": SEARCH, "ud_calls": UD_CALLS},
-                  "model": f"gen {cons_name(cons, arg)} {SEARCH} {FUEL} " + " ".join(p.toks),
                   "expected": res[4], "got": res[0], "got_second": res[1], "model_out": res[3]}
+        if not getattr(p, "nomodel", False):
+            replay["model"] = f"gen {cons_name(cons, arg)} {SEARCH} {FUEL} " + " ".join(p.toks)
         key = ("corpus:" + str(i) if i < len(fixed) else "pipe:" + sig) + ":" + cons + ":" + kind
         chk.violation(("tie:" + key) if kind in ("tie", "harness") else key, f"{src}  — {text}", replay,
                       no_input=kind in ("tie", "harness"))
